@@ -3,6 +3,7 @@ SPECIFICATION Spec
 CONSTANTS
     Paths = {"p"}
     StorePaths = {}
+    LinkPaths = {}
     Contents = {"c1", "c2", "c3"}
     Size <- SizeDef
     Algs = {"md5"}
